@@ -1,4 +1,5 @@
 import MosnVerif.Lemmas.FrameChk
+import MosnVerif.Lemmas.FrameRefine
 import MosnVerif.Model.FrameSpec
 import MosnVerif.Lemmas.FrameH2
 /-!
@@ -40,6 +41,21 @@ never by an announced length whose bytes have not arrived. -/
 theorem alloc_bounded (proto : String) (oracle : Bytes → Bool) (chk : Bytes → Res) (h : chkOf proto oracle = some chk)
     (b : Bytes) : (chk b).alloc ≤ b.length + b.length / 8 :=
   (good_of proto oracle chk h b).alloc
+
+/-- **checked_refines_frameStep**: the checked-access decoder of every protocol classifies every buffer exactly as the
+`frameStep` that C07's segmentation theorems are about (same frame bytes, same drained length, `error` for both kinds
+of failure): C07 and C08 talk about one and the same decoder. -/
+theorem checked_refines_frameStep (proto : String) (oracle : Bytes → Bool) (chk : Bytes → Res) (d : Bytes → Step Bytes)
+    (h : chkOf proto oracle = some chk) (hd : MosnVerif.Model.FrameSteps.frameStepOf proto oracle = some d) (b : Bytes) :
+    (chk b).out.toStep b = d b := by
+  unfold chkOf at h
+  unfold MosnVerif.Model.FrameSteps.frameStepOf at hd
+  split at h <;> simp at h hd <;> subst h <;> subst hd
+  · exact chkBolt_refines false b
+  · exact chkBolt_refines true b
+  · exact chkDubbo_refines oracle b
+  · exact chkThrift_refines oracle b
+  · exact chkTars_refines oracle b
 
 /-- **kv_no_oob**: `xprotocol.DecodeHeader` (validation + `header.DecodeHeader`) never reads outside the block,
 for every block. -/
